@@ -21,6 +21,10 @@ type Table struct {
 	File string // "t0.csv" | "t0.json"
 	Cols []Column
 	Rows []Row
+	// FromSQL, when non-empty, is rendered in FROM instead of File: the table is then VIRTUAL, i.e.
+	// Rows is the driver-computed content of a FROM expression over other files (for example an
+	// inner join of two files on a unique key), whose columns are referenced by qualified names.
+	FromSQL string
 }
 
 const (
@@ -268,7 +272,11 @@ func (q *Query) SQL() string {
 	sb.WriteString(" FROM ")
 	switch q.From.Kind {
 	case SrcTable:
-		sb.WriteString(q.From.Table.File)
+		if q.From.Table.FromSQL != "" {
+			sb.WriteString(q.From.Table.FromSQL)
+		} else {
+			sb.WriteString(q.From.Table.File)
+		}
 	case SrcSub:
 		sb.WriteString("(" + q.From.Sub.SQL() + ")")
 	case SrcCTE:
